@@ -19,6 +19,7 @@ from __future__ import annotations
 import ast
 import hashlib
 import json
+import os
 from pathlib import Path
 
 TABLE = Path(__file__).resolve().parent.parent / "alpha_table.json"
@@ -110,7 +111,7 @@ def functions(tree: ast.Module):
 
 def restore(tree: ast.Module, rel: str) -> None:
     ent = table().get(rel)
-    if not ent:
+    if not ent or os.environ.get("VERIF_NO_ALPHA") == "1":  # the switch is for the surveys of tools/
         return
     seen: dict[str, int] = {}
     for q, fn in functions(tree):
